@@ -419,6 +419,40 @@ def c12_oracle(case, obs):
                     out.append(("connect %d was accepted by host %d (stream %d) and abandoned at step %d, but a read at step "
                                 "%d still waits instead of seeing the reset" % (cid, dst, sid, kc, k), None))
                     break
+    # ---- the same for a connector on the listener's own host (own address or 127.0.0.1): no link carries its RST,
+    # the loopback queue does (seed C12-A8) ----------------------------------------------------------------
+    def same_host(c):
+        d = c["dst"]
+        return (not isinstance(d, dict)) or d.get("h", d.get("name")) == c["host"]
+    for cid, c in conn.items():
+        if c["done"] is None or c["done"][1] != "cancelled" or not same_host(c):
+            continue
+        h, kc = c["host"], c["done"][0]
+        # attribute an accept to this connect only when it was the host's only pending same-host connect then
+        mine = []
+        for x in accepts:
+            if x["host"] != h or not (c["step"] <= x["step"] <= kc) or x["local"][1] != c["port"]:
+                continue
+            ph = x["peer"][0]
+            if ph != "loop" and ph != h:
+                continue
+            others = [o for oid, o in conn.items() if oid != cid and o["host"] == h and same_host(o) and o["step"] <= x["step"]
+                      and (o["done"] is None or o["done"][0] >= x["step"])]
+            if not others:
+                mine.append(x)
+        if len(mine) != 1:
+            continue
+        sid = mine[0]["sid"]
+        for k in range(kc + 3, len(obs["post"])):
+            if sid not in hold_live[k][h]:
+                break
+            limit = len(hold_live[k][h]) + len(hold_pend[k][h]) - 1
+            if obs["post"][k][1][h][1] > limit:
+                out.append(("connect %d of host %d to its own listener (port %d) was accepted (stream %d) and then abandoned at "
+                            "step %d, but after step %d the host still counts the accepted stream as established (%d entries, "
+                            "%d other sockets held): an accepted stream with no successful connect behind it was never reset"
+                            % (cid, h, c["port"], sid, kc, k, obs["post"][k][1][h][1], limit), None))
+                break
     # ---- a task parked in accept() is woken when a request is queued ---------------------------------------
     bg_issue = {}
     for k, st in enumerate(case["steps"]):
